@@ -42,6 +42,8 @@ enum Kind {
     MapRoundTrip,
     /// graphs at the u8 index capacity: 253..=255 nodes, 0 / 254 / 255 edges
     FullU8,
+    /// StableGraph documents whose nodes + holes straddle the u8 index space
+    BigHoles,
 }
 struct Inst {
     kind: Kind,
@@ -53,6 +55,7 @@ fn vars(k: &Kind) -> Vec<(String, usize)> {
         Kind::DocGraph { .. } => vec![("nn".into(), 3), ("prop".into(), 1), ("e0".into(), 1), ("a0".into(), 4), ("b0".into(), 4), ("e1".into(), 2), ("a1".into(), 4), ("b1".into(), 4)],
         Kind::RoundTrip { .. } => vec![("k0".into(), 1), ("k1".into(), 1), ("k2".into(), 1), ("k3".into(), 1), ("hole_first".into(), 1), ("hole_mid".into(), 1), ("hole_last".into(), 1), ("rm_edge".into(), 4)],
         Kind::FullU8 => vec![("nfull".into(), 2), ("efull".into(), 2), ("stable".into(), 1)],
+        Kind::BigHoles => vec![("present".into(), 2), ("total".into(), 5), ("edge".into(), 1)],
         Kind::MapRoundTrip => vec![("k0".into(), 1), ("k1".into(), 1), ("k2".into(), 1), ("iso".into(), 1), ("dir".into(), 1)],
     }
 }
@@ -389,8 +392,43 @@ fn full_u8(ch: &mut dyn Pick) -> Vec<String> {
     bad
 }
 
+fn big_holes(ch: &mut dyn Pick) -> Vec<String> {
+    let mut bad = vec![];
+    let present = [20usize, 100, 200][ch.pick("present", 2)];
+    let total = 252 + ch.pick("total", 5); // 252..=257 slots
+    let holes = total - present;
+    // holes occupy the first `holes` slots, the present nodes the rest
+    let with_edge = ch.pick("edge", 1) == 1;
+    let doc = format!(
+        "{{\"nodes\":[{}],\"node_holes\":[{}],\"edge_property\":\"directed\",\"edges\":[{}]}}",
+        (0..present).map(|i| (i % 200).to_string()).collect::<Vec<_>>().join(","),
+        (0..holes).map(|x| x.to_string()).collect::<Vec<_>>().join(","),
+        if with_edge { format!("[{},{},7]", holes, total.min(255) - 1) } else { String::new() }
+    );
+    match serde_json::from_str::<StableGraph<u8, u8, Directed, u8>>(&doc) {
+        Err(_) => {
+            if total <= 254 {
+                bad.push(format!("a document with {} present nodes and {} holes ({} slots) fits u8 indices but is rejected", present, holes, total));
+            }
+        }
+        Ok(g) => {
+            if total >= 256 {
+                bad.push(format!("a document with {} slots was accepted for u8 indices", total));
+            }
+            consistent(&g, &mut bad);
+            let idx: Vec<usize> = g.node_indices().map(|x| x.index()).collect();
+            let want: Vec<usize> = (holes..total).collect();
+            if idx != want {
+                bad.push(format!("live indices {:?}.. differ from the document's {}..{}", &idx[..idx.len().min(5)], holes, total));
+            }
+        }
+    }
+    bad
+}
+
 fn run_kind(k: &Kind, ch: &mut dyn Pick) -> Vec<String> {
     match k {
+        Kind::BigHoles => big_holes(ch),
         Kind::FullU8 => full_u8(ch),
         Kind::DocStable { directed: true, nn } => doc_stable::<Directed>(*nn, ch),
         Kind::DocStable { directed: false, nn } => doc_stable::<Undirected>(*nn, ch),
@@ -411,6 +449,7 @@ impl Harness for Inst {
             Kind::DocStable { .. } => "JSON document for StableGraph<u8,u8,Ty,u8>: 1-3 nodes, 0-2 node_holes entries with values 0..=4, edge_property right or wrong, 0-2 edges each null or [a,b,w] with a,b in 0..=4 — every value chosen by the solver".into(),
             Kind::DocGraph { .. } => "JSON document for Graph<u8,u8,Ty,u8>: 0-3 nodes, edge_property right or wrong, 0-2 edges each null or [a,b,w] with a,b in 0..=4 — every value chosen by the solver".into(),
             Kind::RoundTrip { .. } => "StableGraph with 3 live nodes, up to 4 edges (incl. a loop), an optionally removed edge and vacancies before/between/after the live nodes, all chosen by the solver; JSON round trips StableGraph<->StableGraph, StableGraph->Graph (vacancy-free), Graph->StableGraph, Graph->Graph".into(),
+            Kind::BigHoles => "StableGraph<u8,u8,Directed,u8> documents with 20/100/200 present nodes and enough leading holes to make 252..=257 slots (solver-chosen), with or without an edge".into(),
             Kind::FullU8 => "Graph<(),(),Directed,u8> with 253/254/255 nodes and 0/254/255 edges (the index capacity of u8), reloaded as Graph or StableGraph; sizes chosen by the solver".into(),
             Kind::MapRoundTrip => "GraphMap<u32,u8> (directed/undirected) with solver-chosen edges and an isolated node; JSON round trip".into(),
         }
@@ -462,6 +501,7 @@ fn make(_tier: &str, _seed: u64) -> Vec<Box<dyn Harness>> {
     }
     v.push(Box::new(Inst { kind: Kind::MapRoundTrip }));
     v.push(Box::new(Inst { kind: Kind::FullU8 }));
+    v.push(Box::new(Inst { kind: Kind::BigHoles }));
     v
 }
 
